@@ -61,6 +61,9 @@ def _strip_validation(prog, t):
             t = t.a[0]
         elif t.k == "call" and t.a[0] in prog.bodies and len(t.a) >= 2:
             t = t.a[1]
+        elif t.k == "call" and len(t.a) == 2 and t.a[0].rsplit("::", 1)[-1] in ("cloned", "copied", "clone") and \
+                (t.a[0].startswith("core::result::Result") or t.a[0].startswith("core::option::Option") or t.a[0].endswith("Clone>::clone")):
+            t = t.a[1]
         else:
             return t
 
@@ -90,6 +93,12 @@ def r1_try_new(prog, ev, rep):
                 rep.check(good, "C10-R1", key, where, "rejected", "`%s` with %d argument(s) is accepted: %s" % (name, n, body))
                 continue
             inner = body.a[2][0][1] if body.k == "adt" and body.a[1] == "Ok" else None
+            if inner is None and body.k == "call" and body.a[0] == "core::result::Result::<T, E>::map" and len(body.a) == 3 and body.a[2].k in ("fnitem", "closure"):
+                # `r.map(TestFunction::Variant)` as the returned value is `Ok(Variant(r?))`
+                inner = ev.apply(body.a[2], [Tm("try", (body.a[1],))])
+            if inner is not None and inner.k == "call" and inner.a[0].startswith(TF + "::") and len(inner.a) >= 2:
+                vn_ = inner.a[0].rsplit("::", 1)[1]
+                inner = Tm("adt", (TF, vn_, tuple((str(i_), a_) for i_, a_ in enumerate(inner.a[1:]))), inner.n)   # tuple-variant constructor used as a function
             if inner is None or inner.k != "adt" or inner.a[0] != TF:
                 rep.bad("C10-R1", key, where, "`%s/%d` does not build a TestFunction: %s" % (name, n, body))
                 continue
@@ -315,7 +324,25 @@ def r4_r5_r6(prog, ev, rep, match_impl, search_impl):
             okdefault = d.k == "call" and d.a[0] == STATE + "bool" and d.a[1].k == "lit" and d.a[1].a[1] == "false"
         if x.k == "call" and x.a[0].endswith("Result::<T, E>::unwrap_or_default") and any(y == news[0] for y in subterms(x.a[1])):
             okdefault = False
-    rep.check(okdefault, "C10-R6", "%s|invalid-pattern" % fn, where, "Err -> bool(false)", "an invalid pattern is not mapped to bool(false)")
+    readable = okdefault or any(x.k == "call" and x.a[0].rsplit("::", 1)[-1].startswith("unwrap") for x in subterms(t))
+    if not okdefault:
+        # `match Regex::new(..) { Ok(re) => .., Err(_) / _ => bool(false) }`  (also what `let Ok(re) = .. else { return bool(false) }` becomes)
+        for x in subterms(t):
+            if x.k == "match" and (x.a[0] == news[0] or x.a[0] is news[0]):
+                readable = True
+                others = []
+                for p_, g_, b_ in x.a[1]:
+                    q = p_
+                    while q.get("k") in ("Deref", "DerefPattern"):
+                        q = q["sub"]
+                    if not (q.get("k") == "Variant" and q.get("variant") == "Ok"):
+                        others.append(b_)
+                okdefault = bool(others) and all(d.k == "call" and d.a[0] == STATE + "bool" and d.a[1].k == "lit" and d.a[1].a[1] == "false" for d in others)
+    if not okdefault and not readable:
+        rep.unrecognised("C10-R6", "%s|invalid-pattern" % fn, where, "what happens when the pattern does not compile could not be read (expected "
+                         "`.unwrap_or(bool(false))` or a match / let-else on Regex::new whose other arm is bool(false))")
+    else:
+        rep.check(okdefault, "C10-R6", "%s|invalid-pattern" % fn, where, "Err -> bool(false)", "an invalid pattern is not mapped to bool(false)")
     # non-string operands: the arm of the (to_str(lhs), to_str(rhs)) match other than (Some, Some)
     okother = False
     if t.k == "match":
